@@ -33,6 +33,7 @@ class LastProfile(StoreProfile):
 
     def params(self, rng, tier):
         p = super().params(rng, tier)
+        p["crowd"] = rng.random() < 0.1
         p["n_entities"] = rng.randint(3, 10 if tier == "quick" else 18)
         p["n_ops"] = rng.randint(5, 12 if tier == "quick" else 30)
         p["capacity"] = rng.choice([4096, 4096, 64, 8])
